@@ -638,6 +638,163 @@ func TestVerif_C05_NamespaceRestore(t *testing.T) {
 	r.Require("expired_leases_seen_revoked", 4)
 }
 
+// ------------------------------------------------------------------ renew || revoke at storage-operation granularity
+
+func TestVerif_C05_RenewRevokeSchedules(t *testing.T) {
+	t.Parallel()
+	seed := kit.Seed(5)
+	shard, _ := kit.Shard()
+	r := kit.NewResult(t, "c05-renew-revoke-schedules", seed, "one sys/leases/renew runs concurrently with one revocation of the same 1h lease (lazy sys/leases/revoke, sync sys/leases/revoke, lazy revoke-prefix, revocation of the owning token) under the storage-operation gate on the lease records: all interleavings with <=2 preemptions (run cap), then seeded PCT schedules; root and child namespace. In every serial order the lease ends revoked (a renewal after the revocation sees an expired/absent lease and is refused), so: a renewal that was granted must not have written the lease record after the accepted revocation wrote it, and after an accepted revocation the stored lease must not carry an expiry in the future; a lease left with a past expiry is awaited (bounded progress). A schedule is non-trivial when one request was seen blocked behind the other (distinct by variant and step order)")
+	defer r.Write(t)
+	e := c05Boot(t, shard%2 == 1, false, 0)
+	v := e.v
+	variants := []string{"lazy-revoke", "sync-revoke", "revoke-prefix-lazy", "token-revoke"}
+	runNo := 0
+	for _, nsPath := range []string{"", "ns1/"} {
+		n := e.ns(nsPath)
+		for vi, variant := range variants {
+			run := func(pol kit.Policy, caseID string) (kit.Schedule, bool) {
+				runNo++
+				r.Eval(1)
+				tok := v.Root
+				childTok := ""
+				if variant == "token-revoke" {
+					tk, resp, err := v.CreateToken(v.Root, map[string]any{"policies": []string{"c05"}, "ttl": "1h"}, false, nsPath)
+					if tk == nil {
+						r.Inconc("%s: token create failed: %s", caseID, vErrStr(resp, err))
+						return kit.Schedule{}, false
+					}
+					tok, childTok = tk.ID, tk.ID
+				}
+				sub := fmt.Sprintf("p%d", runNo)
+				resp, err := v.Do(vReq{Op: logical.ReadOperation, Path: "c05rec/lease/" + sub, Token: tok, NS: nsPath, Data: map[string]any{"ttl": "1h"}})
+				if !vOK(resp, err) || resp == nil || resp.Secret == nil {
+					r.Inconc("%s: leased read failed: %s", caseID, vErrStr(resp, err))
+					return kit.Schedule{}, false
+				}
+				leaseID, sid := resp.Secret.LeaseID, c05SecretID(resp)
+				physKey := n.Prefix + c05LeaseMarker + leaseID
+				v.WaitQuiet(10*time.Millisecond, time.Second)
+				var renResp, revResp *logical.Response
+				var renErr, revErr error
+				reqs := []kit.Req{
+					{Tag: "ren", Fn: func() {
+						renResp, renErr = v.Do(vReq{Op: logical.UpdateOperation, Path: "sys/leases/renew", Token: v.Root, NS: nsPath, Data: map[string]any{"lease_id": leaseID, "increment": 3600}})
+					}},
+					{Tag: "rev", Fn: func() {
+						switch variant {
+						case "lazy-revoke":
+							revResp, revErr = v.Do(vReq{Op: logical.UpdateOperation, Path: "sys/leases/revoke", Token: v.Root, NS: nsPath, Data: map[string]any{"lease_id": leaseID, "sync": false}})
+						case "sync-revoke":
+							revResp, revErr = v.Do(vReq{Op: logical.UpdateOperation, Path: "sys/leases/revoke", Token: v.Root, NS: nsPath, Data: map[string]any{"lease_id": leaseID, "sync": true}})
+						case "revoke-prefix-lazy":
+							revResp, revErr = v.Do(vReq{Op: logical.UpdateOperation, Path: "sys/leases/revoke-prefix/c05rec/lease/" + sub, Token: v.Root, NS: nsPath, Data: map[string]any{"sync": false}})
+						case "token-revoke":
+							revResp, revErr = v.Do(vReq{Op: logical.UpdateOperation, Path: "auth/token/revoke", Token: v.Root, NS: nsPath, Data: map[string]any{"token": childTok}})
+						}
+					}},
+				}
+				v.Probe.StartLog(false)
+				sched := v.Probe.RunGated(reqs, pol, kit.GateOpts{Filter: func(ev kit.Event) bool { return strings.Contains(ev.Key, c05LeaseMarker) }})
+				v.WaitQuiet(30*time.Millisecond, 3*time.Second)
+				evs := v.Probe.StopLog()
+				if sched.TimedOut {
+					r.Inconc("%s: gate watchdog expired", caseID)
+					return sched, false
+				}
+				r.Count("schedule_runs", 1)
+				if sched.Blocked > 0 {
+					r.Count("schedules_with_lock_contention", 1)
+					r.Nontrivial(variant + nsPath + sched.Hash())
+				}
+				renOK := vOK(renResp, renErr) && renResp != nil && renResp.Secret != nil
+				revOK := vOK(revResp, revErr)
+				var lastRevWrite, lastRenPut uint64
+				var order []string
+				for _, ev := range evs {
+					if ev.Key != physKey || ev.Err != "" {
+						continue
+					}
+					order = append(order, fmt.Sprintf("%s:%s", ev.Tag, ev.Op))
+					if ev.Tag == "rev" && (ev.Op == "put" || ev.Op == "delete") {
+						lastRevWrite = ev.Seq
+					}
+					if ev.Tag == "ren" && ev.Op == "put" {
+						lastRenPut = ev.Seq
+					}
+				}
+				var backend []string
+				for _, bev := range v.Rec.Events() {
+					if bev.ID == sid && (bev.Kind == "revoked" || bev.Kind == "renew") {
+						backend = append(backend, bev.Kind)
+					}
+				}
+				wit := map[string]any{"variant": variant, "ns": nsPath, "transactional": e.tx, "schedule": sched.String(), "lease_record_ops": order, "backend_events": backend,
+					"renew": vErrStr(renResp, renErr), "revoke": vErrStr(revResp, revErr)}
+				switch {
+				case renOK && revOK:
+					r.Count("renew_granted_and_revocation_accepted", 1)
+				case revOK:
+					r.Count("renew_refused_and_revocation_accepted", 1)
+				}
+				if !revOK {
+					r.Count("revocation_refused", 1)
+					return sched, true
+				}
+				if renOK && lastRevWrite > 0 && lastRenPut > lastRevWrite {
+					r.Violate("C05-lease-renewed-after-its-revocation-was-recorded", caseID, fmt.Sprintf("[%s] %s || renew, namespace %q: the renewal was granted and wrote the lease record after the accepted revocation had written it (lease record operations: %v; backend saw %v)", caseID, variant, nsPath, order, backend), wit)
+					return sched, r.NViolations() < 20
+				}
+				if le := c05ReadLease(v, n, leaseID); le != nil {
+					if le.ExpireTime.After(time.Now().Add(30 * time.Second)) {
+						r.Violate("C05-revoked-lease-has-future-expiry", caseID, fmt.Sprintf("[%s] %s || renew, namespace %q: after the revocation was accepted the stored lease expires in %s (lease record operations: %v; backend saw %v)", caseID, variant, nsPath, time.Until(le.ExpireTime).Round(time.Second), order, backend), wit)
+						return sched, r.NViolations() < 20
+					}
+					e.awaitGone(v, r, caseID, map[string]*c05Stored{leaseID: {ID: leaseID, NS: n, Entry: le}})
+				}
+				r.Count("revoked_leases_gone", 1)
+				if runNo%7 == 0 {
+					r.Sample(wit)
+				}
+				return sched, true
+			}
+			ex := &kit.Explorer{MaxPreempt: 2, MaxRuns: kit.N(10, 60)}
+			idx := 0
+			stop := false
+			ex.Explore(func(pol kit.Policy) (kit.Schedule, bool) {
+				idx++
+				caseID := fmt.Sprintf("rrsched:%s:%s:ex:%d", nsPath, variant, idx)
+				if !kit.WantCase(caseID) {
+					return kit.Schedule{Diverged: true}, true
+				}
+				s, cont := run(pol, caseID)
+				if !cont {
+					stop = true
+				}
+				return s, cont
+			})
+			for k := 0; k < kit.N(4, 40) && !stop; k++ {
+				caseID := fmt.Sprintf("rrsched:%s:%s:pct:%d:%d", nsPath, variant, shard, k)
+				if !kit.WantCase(caseID) {
+					continue
+				}
+				rng := kit.NewRand(seed, uint64(80_000+10_000*shard+1000*vi+k)*2+uint64(len(nsPath)%2))
+				if _, cont := run(kit.NewPCT(rng, []string{"ren", "rev"}, 3, 12), caseID); !cont {
+					break
+				}
+			}
+			if r.NViolations() >= 20 {
+				return
+			}
+		}
+	}
+	r.Require("schedule_runs", 40)
+	r.Require("schedules_with_lock_contention", 10)
+	r.Require("renew_granted_and_revocation_accepted", 3)
+	r.Require("renew_refused_and_revocation_accepted", 3)
+	r.Require("revoked_leases_gone", 30)
+}
+
 // ------------------------------------------------------------------ crash prefixes
 
 type c05Flow struct {
@@ -1011,6 +1168,23 @@ func TestVerif_C05_RetryBudget(t *testing.T) {
 		}
 		c05RetryToken(e, r, id, e.nss[i%2])
 	}
+	// the write of the irrevocable mark itself fails (sequential: uses probe faults)
+	for i := 0; i < kit.N(3, 8); i++ {
+		id := fmt.Sprintf("retry-markfault:%d:%d", shard, i)
+		if !kit.WantCase(id) {
+			continue
+		}
+		c05RetryMarkFault(e, r, id, e.nss[i%2], i%3 == 2, func(sid string, on bool) {
+			fmu.Lock()
+			failing[sid] = on
+			fmu.Unlock()
+		}, func(sid string) int {
+			fmu.Lock()
+			defer fmu.Unlock()
+			return attempts[sid]
+		})
+	}
+	r.Require("budget_spent_with_failing_mark_write", 2)
 	r.Require("lingering_expired_renewal_refused", 4)
 	r.Require("became_irrevocable", 6)
 	r.Require("irrevocable_renewal_refused", 6)
@@ -1180,5 +1354,96 @@ func c05RetryToken(e *c05Env, r *kit.Result, caseID string, n *c05NS) {
 		return
 	}
 	r.Count("irrevocable_token_revoked_after_recovery", 1)
+	r.Nontrivial(caseID)
+}
+
+// c05RetryMarkFault: the backend revocation fails and, in addition, every write of the
+// lease record fails from the moment the lease is registered (so the only write that
+// is hit is the one recording the irrevocable mark). Once the harness has seen the
+// whole retry budget spent, the lease must be in the irrevocable set (the property's
+// "tracked for expiry, or marked irrevocable after its retry budget"): a lease that is
+// merely left in pending with its budget spent is never attempted again.
+func c05RetryMarkFault(e *c05Env, r *kit.Result, caseID string, n *c05NS, lateFault bool, setFailing func(string, bool), attemptsOf func(string) int) {
+	v := e.v
+	r.Eval(1)
+	resp, err := v.Do(vReq{Op: logical.ReadOperation, Path: "c05rec/lease/mf", Token: v.Root, NS: n.Path, Data: map[string]any{"ttl": "2s", "max_ttl": "1h"}})
+	if !vOK(resp, err) || resp == nil || resp.Secret == nil {
+		r.Inconc("%s: leased read failed: %s", caseID, vErrStr(resp, err))
+		return
+	}
+	leaseID, sid := resp.Secret.LeaseID, c05SecretID(resp)
+	setFailing(sid, true)
+	defer setFailing(sid, false)
+	physKey := n.Prefix + c05LeaseMarker + leaseID
+	steps := []string{fmt.Sprintf("leased secret ns=%q ttl=2s; backend revocation fails", n.Path)}
+	arm := func() {
+		v.Probe.FailAll(func(ev kit.Event) bool { return ev.Op == "put" && ev.Key == physKey })
+	}
+	if !lateFault {
+		arm()
+		steps = append(steps, "every write of the lease record fails from now on")
+	}
+	defer v.Probe.ClearFaults()
+	deadline := time.Now().Add(40 * time.Second)
+	armed := !lateFault
+	for attemptsOf(sid) < maxRevokeAttempts {
+		if !armed && attemptsOf(sid) >= 2 {
+			arm()
+			armed = true
+			steps = append(steps, "after 2 failed revocations every write of the lease record fails")
+		}
+		if time.Now().After(deadline) {
+			r.Inconc("%s: retry budget not spent 40s after issue (%d failed revocations)", caseID, attemptsOf(sid))
+			return
+		}
+		time.Sleep(10 * time.Millisecond)
+	}
+	steps = append(steps, fmt.Sprintf("%d failed revocations seen (budget %d)", attemptsOf(sid), maxRevokeAttempts))
+	r.Count("budget_spent_with_failing_mark_write", 1)
+	// persistent state on an idle core: polled until the lease is in the irrevocable set
+	where := ""
+	for p := 0; p < 60; p++ {
+		tr, ok := c05Tracker(v.Core)[leaseID]
+		where = tr.Where
+		if !ok {
+			where = "(untracked)"
+		}
+		if where == "irrevocable" {
+			break
+		}
+		time.Sleep(50 * time.Millisecond)
+	}
+	fired := v.Probe.ClearFaults()
+	if fired > 0 {
+		r.Count("irrevocable_mark_write_failed", 1)
+	}
+	stored := c05ReadLease(v, n, leaseID)
+	if stored == nil {
+		r.Inconc("%s: lease vanished although its revocation is made to fail", caseID)
+		return
+	}
+	if where != "irrevocable" {
+		after := attemptsOf(sid)
+		r.Violate("C05-retry-budget-spent-lease-neither-irrevocable-nor-retried", caseID, fmt.Sprintf("[%s] lease (namespace %q) is stored and expired, its revocation failed %d times (budget %d, write of the irrevocable mark failed: %v), 3s later it is tracked as %q, not in the irrevocable set, and no further revocation is attempted", caseID, n.Path, after, maxRevokeAttempts, fired > 0, where), steps)
+		return
+	}
+	r.Count("irrevocable_in_memory_after_failed_mark_write", 1)
+	if att := attemptsOf(sid); att > maxRevokeAttempts {
+		r.Violate("C05-retry-budget-exceeded", caseID, fmt.Sprintf("[%s] %d failed revocation attempts (budget %d)", caseID, att, maxRevokeAttempts), steps)
+		return
+	}
+	rr, rerr := v.Do(vReq{Op: logical.UpdateOperation, Path: "sys/leases/renew", Token: v.Root, NS: n.Path, Data: map[string]any{"lease_id": leaseID, "increment": 3600}})
+	if vOK(rr, rerr) && rr != nil && rr.Secret != nil {
+		r.Violate("C05-irrevocable-lease-renewed", caseID, fmt.Sprintf("[%s] lease out of revocation retries (mark not written) was renewed (granted %s)", caseID, rr.Secret.TTL), steps)
+		return
+	}
+	// recovery: storage and backend work again
+	setFailing(sid, false)
+	resp, err = v.Do(vReq{Op: logical.UpdateOperation, Path: "sys/leases/revoke", Token: v.Root, NS: n.Path, Data: map[string]any{"lease_id": leaseID, "sync": true}})
+	if !vOK(resp, err) || c05ReadLease(v, n, leaseID) != nil {
+		r.Violate("C05-irrevocable-lease-not-revocable-after-recovery", caseID, fmt.Sprintf("[%s] lease out of retries cannot be revoked after storage and backend recovered: %s", caseID, vErrStr(resp, err)), steps)
+		return
+	}
+	r.Count("markfault_lease_revoked_after_recovery", 1)
 	r.Nontrivial(caseID)
 }
